@@ -327,6 +327,27 @@ def run(p, report, tier):
             report.add("R19.12", fm.qual, "`sample_weight` is handed on", f"{fm.file}:{fm.node.lineno}", used,
                        detail="read in the body" if used else
                        "the method accepts sample_weight and never reads it: the batch is stored / fitted without its weights")
+        # fit and partial_fit hand the same data to the helpers they share
+        ffit, fpf = ci_.methods.get("fit"), ci_.methods.get("partial_fit")
+        if ffit is not None and fpf is not None:
+            def helper_calls(fn):
+                out = {}
+                for c in ast.walk(fn.node):
+                    if isinstance(c, ast.Call) and isinstance(c.func, ast.Attribute) and isinstance(c.func.value, ast.Name) \
+                            and c.func.value.id == "self" and c.func.attr.startswith("_"):
+                        names = {a.id for a in c.args if isinstance(a, ast.Name)} | {k.value.id for k in c.keywords
+                                                                                       if k.arg and isinstance(k.value, ast.Name)}
+                        out.setdefault(c.func.attr, []).append((c, names))
+                return out
+            hf, hp = helper_calls(ffit), helper_calls(fpf)
+            for hn in sorted(set(hf) & set(hp)):
+                need = set.union(*[nm for _, nm in hf[hn]]) & set(fpf.all_param_names())
+                for c, names in hp[hn]:
+                    miss = need - names
+                    report.add("R19.12", fpf.qual, f"`{norm_stmt(c, 50)}` gets what fit hands to the same helper", f"{fpf.file}:{c.lineno}",
+                               not miss, detail="same data" if not miss else
+                               f"fit passes {sorted(need)} to {hn}, partial_fit leaves out {sorted(miss)}: the helper's default applies "
+                               f"(weights of the whole window are dropped)")
     cvv = p.get_func("skactiveml.utils._aggregation", "compute_vote_vectors")
     if cvv is None:
         raise AnalysisError("compute_vote_vectors vanished")
